@@ -71,6 +71,40 @@ def replay(path):
         return 2
     fam.setup()
     case = core.unjson(rec['case'])
+    if rec.get('history_dependent'):
+        # re-create the state of the worker process: everything it had executed, in order, then the shard of the case up to it
+        fams = {f.name: f for f in all_families(drv, rec.get('tier', 'quick'))}
+        import itertools
+        for fname, shard, limit in rec['worker_history']:
+            f = fams.get(fname)
+            if f is None or not isinstance(f, core.Family):
+                continue
+            f.tier = rec.get('tier', 'quick')
+            if not getattr(f, '_setup_done', False):
+                f.setup()
+                f._setup_done = True
+            it = f.cases(core.unjson(shard), rec.get('tier', 'quick'))
+            for c in (itertools.islice(it, limit) if limit else it):
+                (core.run_case_fresh if getattr(f, 'fresh', False) else core.run_case)(f, c)
+        f = fams[rec['family']]
+        f.tier = rec.get('tier', 'quick')
+        if not getattr(f, '_setup_done', False):
+            f.setup()
+            f._setup_done = True
+        shard = rec['shard']
+        it = f.cases(core.unjson(shard), rec.get('tier', 'quick'))
+        v = None
+        for k, c in enumerate(it):
+            r = core.run_case(f, c)
+            if k >= rec['index']:
+                v = r[2]
+                break
+        if v is None:
+            print('replay %s: the recorded history no longer leads to a violation of %s' % (path, prop))
+            return 0
+        print('VIOLATION property=%s replay=%s' % (prop, path))
+        print('   %s\n   expected=%s\n   observed=%s' % (v['msg'], core.short(v['expected']), core.short(v['observed'])))
+        return 1
     if isinstance(fam, core.BFSFamily):
         try:
             fam.apply(tuple(case))
